@@ -2,6 +2,7 @@
    (base-coin price table and base gas coin on the ledger model; the pool route / reserve route of
    a custom gas coin: CalculateCommission is compared on the node, the pool arithmetic is C13) *)
 From Minter Require Import Base Ledger LedgerFacts LedgerTx LedgerProps LedgerCons LedgerReg LedgerExample.
+From Minter Require FeeRoute FeeRouteFacts.
 From Coq Require Import ZArith List.
 Import ListNotations.
 Open Scope Z_scope.
@@ -69,8 +70,27 @@ Example C27_example :
   s_rpool (fst (deliver ex_state ex_overspend)) = 1 + 3 * 2.
 Proof. vm_compute. repeat split. Qed.
 
+(* a commission paid in a custom coin that has both a reserve and a pool to the base coin takes the cheaper of
+   the two routes (the pool on a tie); with one route only, that one; with none the transaction is refused *)
+Theorem C27_cheaper_route : forall r p a rt, FeeRoute.choose_route (Some r) (Some p) = Some (a, rt) ->
+  a = Z.min r p /\ a <= r /\ a <= p /\ (rt = FeeRoute.RBancor <-> r < p).
+Proof.
+  intros r p a rt H. destruct (FeeRouteFacts.choose_min _ _ _ _ H) as [A B]. destruct (FeeRouteFacts.choose_le _ _ _ _ H) as [C D].
+  repeat split; auto; apply B.
+Qed.
+
+Theorem C27_route_is_an_available_quote : forall rq pq a rt, FeeRoute.choose_route rq pq = Some (a, rt) ->
+  (rt = FeeRoute.RBancor /\ rq = Some a) \/ (rt = FeeRoute.RPool /\ pq = Some a).
+Proof. exact FeeRouteFacts.choose_is_a_quote. Qed.
+
+Theorem C27_no_route_refused : forall rq pq, FeeRoute.choose_route rq pq = None <-> rq = None /\ pq = None.
+Proof. exact FeeRouteFacts.choose_none. Qed.
+
 Print Assumptions C27_fee_formula.
 Print Assumptions C27_fee_converted_through_pool.
 Print Assumptions C27_ticker_fee_burned.
 Print Assumptions C27_type_prices.
 Print Assumptions C27_failed_fee.
+Print Assumptions C27_cheaper_route.
+Print Assumptions C27_route_is_an_available_quote.
+Print Assumptions C27_no_route_refused.
